@@ -14,6 +14,7 @@
         → the parsed disk content after construction and after each registration
     (recorder_last …), (simplegp_last …) → the parsed disk content after the last registration only
     (track_flags (aggregates…)) → the single-objective tracker's is_best flags
+    (prop_flags (aggregates…) (flags…)) → are the flags exactly "strictly better than every earlier one"
   Property predicates on the REAL file
     (prop_file recorder|simplegp k fields extras onlyBest events file)
 -/
@@ -135,6 +136,12 @@ def handle : List Sexp → Option Sexp
   | [atom "simplegp_last", b, k, extras, onlyBest, events] => do
       let cfg := simpleGPConfig (← parseBinding b) (← k.asNat?) (← parseNamed extras) (← onlyBest.asBool?)
       pure (diskSx ((Recorder.new .perClosure cfg 0).run (← parseEvents events)).file.disk)
+  | [atom "prop_flags", aggs, flags] => do
+      -- independent statement: the k-th registration is flagged iff its aggregate beats EVERY earlier one
+      let a ← aggs.asInts?
+      let f ← (← flags.asList?).mapM Sexp.asBool?
+      pure (ofBool (f.length == a.length &&
+        (List.range a.length).all fun k => f.getD k false == (a.take k).all fun x => decide (x < a.getD k 0)))
   | [atom "track_flags", aggs] => do
       pure (list ((trackFlags none (← aggs.asInts?)).map ofBool))
   | [atom "prop_file", atom kind, k, fields, extras, onlyBest, events, file] => do
